@@ -230,6 +230,13 @@ def stepColl (c : CollSt) (ws : List String) : CollSt × String :=
     | some p, some bs =>
       let s' := (Coll.unplanUnits c.units c.st p (bs.map (·.2))).1; ({ c with st := s' }, "coll " ++ showColl s')
     | _, _ => (c, "bad-op")
+  | ["unplanUnitsR", p, bits] =>
+    -- with the Boolean result (all-or-nothing for plan-all units, "was a member rejected" for one-of units)
+    match p.toNat?, parsePairs bits with
+    | some p, some bs =>
+      let r := Coll.unplanUnits c.units c.st p (bs.map (·.2))
+      ({ c with st := r.1 }, "coll " ++ showColl r.1 ++ " ok=" ++ (if r.2 then "1" else "0"))
+    | _, _ => (c, "bad-op")
   | ["vehicleUnplan", us, ok] =>
     match parseNatsCsv us with
     | some us => let s' := (Coll.vehicleUnplan c.units c.st us (ok = "1")).1; ({ c with st := s' }, "coll " ++ showColl s')
